@@ -2,4 +2,4 @@ SPECIFICATION Spec
 CONSTANTS
   Alpha <- Boundary
   N = 4
-INVARIANTS LawsHold Emit
+INVARIANTS Judge
